@@ -65,6 +65,16 @@ stylesheet.between, output.newline, stylesheet.intUnit / floatUnit; output.selfC
 newline, baseIndent) are repeated on every such form with the text the documentation states for the form; same layer
 stacks and values (the empty string always among them) as the plain entries.
 
+KEY-FORM entries of the effect table (cfgeffect_util.MARKUP_KEYFORM_EFFECTS): `markup.attributes` and `markup.valuePrefix`
+are MAPPINGS with two documented key forms per attribute (NAME, and NAME* for the repeated shorthand operator `..x` / `##x`;
+without a NAME* entry the plain entry applies to the repeated form too).  The plain entries give each mapping in ONE key
+form on ONE way of writing the attribute, so a consumer that looks the effective mapping up differently for another key
+form / operator form (and so falls back to a less specific layer's or the built-in behaviour) is never judged.  Every key
+form of the mapping (no entry / plain only / starred only / both / entries for another attribute only) x every way of
+writing the attribute (single, doubled, tripled operator, bracket form, nested repeated element, after another attribute)
+for class, id and `for`, with the layer stacks of the plain entries -- the winning layer's mapping replaces the jsx / vue
+syntax defaults (which carry starred keys) wholesale.
+
 SCOPE entries of the effect table (cfgeffect_util.CSS_SCOPE_EFFECTS) and THE SCOPED TABLE (gen_scoped_effects): every entry
 above expands its abbreviation WITHOUT a `context`, so a consumer of an option that sits in a scope branch of the resolver
 (stylesheet: value scope = the abbreviation is the VALUE of the property the context names, '@@property', '@@section',
@@ -1074,6 +1084,9 @@ def summarize(tb, case, res, rng, with_model):
     if kind == 'effect':
         e = (res['expected'] or {}).get('options', {}).get(case['key'])
         sm['effect_win'] = (e[1], not e[0], e[2]) if e else None
+        kf = getattr(fx.BY_NAME.get(case.get('effect')), 'keyform', None)
+        if kf and e:
+            sm['keyform'] = (kf[0], kf[1], fx.keyform_shape(e[0], kf[0]))
     if kind.startswith('cell'):
         sec, key = case['sec'], case['key']
         e = (res['expected'] or {}).get(sec, {}).get(key)
@@ -1338,6 +1351,8 @@ def cover_case(ctx, tb, case, sm):
         if cx is not None:
             name = str(cx.get('name'))
             ctx.cover('effect-scope:%s:%s:%s' % (ty, name if name.startswith('@@') or ty == 'markup' else 'value-scope', verdict))
+        if sm.get('keyform'):
+            ctx.cover('effect-keyform:%s:%s:%s:mapping-%s:%s' % ((case['key'],) + tuple(sm['keyform']) + (verdict,)))
         win = sm.get('effect_win')
         if win is not None:
             ctx.cover('effect-winner:%s:%s' % (LAYERS[win[0]], 'empty-or-false-value' if win[1] else 'other-value'))
@@ -1409,7 +1424,14 @@ def run(ctx):
         'stylesheet.after (before a following declaration and as the last thing of the output), stylesheet.between, '
         'output.newline, stylesheet.intUnit / floatUnit on declarations of the forms %r (`!important` flag, several values, '
         'float, colour, flag without value); output.selfClosingStyle / attributeQuotes / indent / newline / baseIndent on '
-        'nested, repeated and attribute carrying elements; same layer stacks (%s).  SCOPE entries (the call\'s `context`; '
+        'nested, repeated and attribute carrying elements; same layer stacks (%s).  KEY-FORM entries (%d, '
+        'cfgeffect_util.MARKUP_KEYFORM_EFFECTS): the mapping-valued options markup.attributes and markup.valuePrefix in every '
+        'KEY FORM of the effective mapping (no entry | NAME only | NAME* only | both | entries for another attribute only) x '
+        'every way of writing the attribute %r (single / doubled / tripled shorthand operator, bracket form, nested '
+        'repeated element, after another attribute; class, id, for), full entries of the effect table (every winning layer x '
+        'key form, the layer stacks of the plain entries; the real jsx / vue syntax defaults with their starred keys among '
+        'the beaten layers): the attribute name / value prefix of the output is the one the EFFECTIVE mapping states for '
+        'that way of writing (NAME* for a repeated operator, else NAME, else unchanged), no other layer\'s.  SCOPE entries (the call\'s `context`; '
         '%d stylesheet entries of the effect table, cfgeffect_util.CSS_SCOPE_EFFECTS, options %r): '
         'stylesheet.fuzzySearchMinScore with the values %r on abbreviations that are prefixes of the one candidate the case '
         'supplies (%r: abbreviation, documented score) matched as property name without context and under @@property, as '
@@ -1439,6 +1461,7 @@ def run(ctx):
            len(fx.MARKUP_FORM_EFFECTS), len(fx.CSS_FORM_EFFECTS), [f[0] for f in fx.CSS_FORMS],
            'every winning layer and variant' if thorough else 'one winning layer and variant per (name, entry, value) drawn '
            'from the seeded rng',
+           len(fx.MARKUP_KEYFORM_EFFECTS), [f[1] for f in fx.KEYFORM_FORMS],
            len(fx.CSS_SCOPE_EFFECTS), sorted(set(e.key for e in fx.CSS_SCOPE_EFFECTS)), fx.FUZZY_VALUES, fx.FUZZY_ABBRS,
            fx.UNCHANGED_UNDER,
            'every (name, entry, context, winning layer, value), one variant drawn from the seeded rng' if thorough else
@@ -1476,6 +1499,7 @@ def run(ctx):
         'natural_cells': len(natural), 'aliased_cases': len(aliased), 'key_shape_cases': len(shapes),
         'key_shapes': {'%s/%s' % k: v for k, v in KEY_SHAPES.items()},
         'effect_cases': len(effects), 'scoped_effect_cases': len(scoped),
+        'keyform_entries': [e.name for e in fx.MARKUP_KEYFORM_EFFECTS],
         'scope_entries': [e.name for e in fx.CSS_SCOPE_EFFECTS], 'scope_contexts': fx.UNCHANGED_UNDER,
         'effect_entries': [e.name for es in fx.EFFECTS.values() for e in es]}
     ctx.assumptions += [
